@@ -1,0 +1,18 @@
+// SPDX-FileCopyrightText: 2026 The Pion community <https://pion.ly>
+// SPDX-License-Identifier: MIT
+
+//go:build verif
+
+package nack
+
+import "github.com/pion/interceptor/internal/rtpbuffer"
+
+// VerifResponderPacketFactory sets the packet factory of the responder.
+// Verification hook, only compiled with the "verif" build tag.
+func VerifResponderPacketFactory(f rtpbuffer.PacketFactory) ResponderOption {
+	return func(r *ResponderInterceptor) error {
+		r.packetFactory = f
+
+		return nil
+	}
+}
